@@ -3,6 +3,8 @@ package gen
 import (
 	"fmt"
 	"strings"
+	"unicode"
+	"unicode/utf8"
 )
 
 // Sanitiser is an independent statement of how an import path component is turned into (part of) a qualifier.
@@ -99,7 +101,7 @@ func (g *G) avoidRetroRenames() {
 func predictedName(t *Ty) string {
 	switch t.K {
 	case KNamed:
-		return strings.ToLower(t.Name[:1]) + t.Name[1:]
+		return LowerFirst(t.Name)
 	case KPtr:
 		return predictedName(t.Elem)
 	case KSlice, KArray:
@@ -129,4 +131,15 @@ func predictedName(t *Ty) string {
 		return "ifaceVal"
 	}
 	return ""
+}
+
+// LowerFirst / UpperFirst change the case of the first rune.
+func LowerFirst(s string) string {
+	r, n := utf8.DecodeRuneInString(s)
+	return string(unicode.ToLower(r)) + s[n:]
+}
+
+func UpperFirst(s string) string {
+	r, n := utf8.DecodeRuneInString(s)
+	return string(unicode.ToUpper(r)) + s[n:]
 }
